@@ -10,12 +10,13 @@ R-C11d  function attach: every ir.Function domain gets an opset import (shared w
 from __future__ import annotations
 
 import ast
-from typing import List
+from typing import Dict, FrozenSet, List, Tuple
 
 from ..callgraph import get_callgraph
 from ..emit import EmitSite, enumerate_sites
 from ..facts import OpsetFacts
-from ..index import AnalysisError, Index, call_name
+from ..guards import src
+from ..index import AnalysisError, Index, call_name, walk_no_nested
 from ..report import Results
 from ..tables.onnx_ops import get_history
 
@@ -126,6 +127,7 @@ def run(res: Results, idx: Index, tier: str) -> None:
     _control_guard_engine(res, facts)
     rule_e(res, idx, cg, tier)
     rule_g(res, idx)
+    rule_h(res, idx, facts)
     from .c03 import inherited_settings
     res.rule("R-C11f", "nested Loop / If / function scopes inherit the requested opset from an attribute that exists", floor=1)
     for site, key, status, detail, func, setting in inherited_settings(idx):
@@ -371,3 +373,100 @@ def rule_g(res: Results, idx: Index) -> None:
                     else:
                         res.ok("R-C11g", site, key, f"{k.arg} in {sorted(set(vals))}", fi.qualname)
     res.analysed["enumerated_attribute_sites"] = n
+
+
+# ---------------------------------------------------------------------------------------------- R-C11h
+def rule_h(res: Results, idx: Index, facts: OpsetFacts) -> None:
+    """A lowering that takes another path from some opset on must still compute the same function.  Where the
+    opset-gated path and the path used below that opset assign the SAME local name from the SAME operator (`max_start =
+    Sub(…)`, `start_clamped = Min(…)`), the two emissions are siblings: each operand position must derive from the same
+    equation operands (taint by `ctx.get_value_for_var(<eqn input>)` roots, through shapes / gathers / scalars).  A
+    sibling whose operand lost a root (the update's extent in a clamp bound) computes something else at that opset."""
+    from ..flow import defuse, names_in
+    res.rule("R-C11h", "opset-gated alternative lowerings feed sibling emissions from the same equation operands", floor=1)
+    n = 0
+    for m in idx.product_modules():
+        if "/plugins/" not in m.rel or "opset" not in m.src:
+            continue
+        for fi in m.funcs.values():
+            if fi.name != "lower" and not fi.name.startswith("_lower"):
+                continue
+            du = defuse(fi.node)
+            roots: Dict[str, str] = {}
+            for nm, ds in du.defs.items():
+                for d in ds:
+                    if d.value is not None and isinstance(d.value, ast.Call) and (call_name(d.value) or "").endswith("get_value_for_var") and d.value.args:
+                        roots[nm] = src(d.value.args[0], 30)
+            if len(roots) < 2:
+                continue
+            fed: Dict[str, set] = {}          # container mutation: `xs.append(v)` makes xs depend on v
+            for c in walk_no_nested(fi.node):
+                if isinstance(c, ast.Call) and isinstance(c.func, ast.Attribute) and c.func.attr in ("append", "extend", "insert", "add", "update") \
+                        and isinstance(c.func.value, ast.Name):
+                    for a in c.args:
+                        fed.setdefault(c.func.value.id, set()).update(names_in(a))
+
+            def clo_of(names: set) -> set:
+                out = set(du.closure(names)) | set(names)
+                while True:
+                    extra = set()
+                    for nm_ in out:
+                        if nm_ in fed:
+                            extra |= set(du.closure(fed[nm_])) | fed[nm_]
+                    if extra <= out:
+                        return out
+                    out |= extra
+            by_name: Dict[Tuple[str, str], List[Tuple[ast.Call, FrozenSet[int]]]] = {}
+            for st in walk_no_nested(fi.node):
+                if not (isinstance(st, ast.Assign) and len(st.targets) == 1 and isinstance(st.targets[0], ast.Name)):
+                    continue
+                v = st.value
+                while isinstance(v, ast.Call) and (call_name(v) or "") in ("cast", "typing.cast") and len(v.args) == 2:
+                    v = v.args[1]
+                if not isinstance(v, ast.Call):
+                    continue
+                op = None
+                operands: List[ast.AST] = []
+                cn = call_name(v) or ""
+                if isinstance(v.func, ast.Attribute) and v.func.attr[:1].isupper() and "builder" in cn:
+                    op, operands = v.func.attr, list(v.args)
+                else:
+                    sc = [a for a in v.args if isinstance(a, ast.Constant) and isinstance(a.value, str) and a.value[:1].isupper() and a.value.isalpha()]
+                    if sc and len(v.args) >= 3:
+                        op = sc[0].value
+                        operands = [a for a in v.args if not isinstance(a, ast.Constant) and not (isinstance(a, ast.Name) and a.id == "ctx")]
+                if op is None or len(operands) < 2:
+                    continue
+                by_name.setdefault((st.targets[0].id, op), []).append((v, facts.path_fact(st, fi)))
+            for (nm, op), lst in sorted(by_name.items()):
+                if len(lst) < 2:
+                    continue
+                gated = [x for x in lst if x[1] != facts.U]
+                plain = [x for x in lst if x[1] == facts.U]
+                if not gated or not plain:
+                    continue
+
+                def taints(call: ast.Call) -> List[FrozenSet[str]]:
+                    out = []
+                    ops_ = list(call.args) if isinstance(call.func, ast.Attribute) and call.func.attr[:1].isupper() else [a for a in call.args if not isinstance(a, ast.Constant) and not (isinstance(a, ast.Name) and a.id == "ctx")]
+                    for a in ops_:
+                        clo = clo_of(names_in(a))
+                        out.append(frozenset(roots[r] for r in clo if r in roots))
+                    return out
+                ref = taints(plain[0][0])
+                for call, fact in gated:
+                    n += 1
+                    key = f"{m.rel}::{fi.qualname}::sibling::{nm}::{op}@{min(fact) if fact else '?'}"
+                    site = f"{m.rel}:{call.lineno}"
+                    got = taints(call)
+                    if len(got) != len(ref):
+                        res.unresolved("R-C11h", site, key, f"siblings `{nm} = {op}(…)` take {len(got)} and {len(ref)} operands", fi.qualname)
+                        continue
+                    lost = [(i, sorted(r - g)) for i, (g, r) in enumerate(zip(got, ref)) if r - g]
+                    if lost:
+                        i, what = lost[0]
+                        res.violation("R-C11h", site, key, f"`{nm} = {op}(…)` on the path taken at opsets {min(fact)}..{max(fact)} no longer derives operand {i} from {what} as its sibling at line {plain[0][0].lineno} does "
+                                      f"(`{src(call, 70)}` vs `{src(plain[0][0], 70)}`): the two opset ranges compute different functions", fi.qualname)
+                    else:
+                        res.ok("R-C11h", site, key, f"operands of `{nm} = {op}(…)` derive from the same equation inputs as the sibling at line {plain[0][0].lineno}", fi.qualname)
+    res.analysed["opset_gated_sibling_emissions"] = n
